@@ -9,7 +9,7 @@ PID = 'C11'
 STATS = G.STATS
 PARTIAL = [
     "non-singularity of the collocation matrix / of N^T N (Schoenberg-Whitney / total positivity) is a hypothesis: the theorems say 'whenever lu_solve returns'; the harness checks that it does return on every generated data set",
-    "least squares: the normal equations and the minimisation theorem (approximateCurve_minimises) are proved for the curve written as sum_j N_j,p(u_k) P_j with N_j,p as computed by basis_function_one (the values the code puts into N); the version for the EVALUATED curve (approximateCurve_minimises_evaluated_distinct) still takes 'basis_function_one = Cox-de Boor at the interior parameters' as hypothesis hB (that is theorem basisFunOne_eq_cdb of C03, not imported here)",
+    "least squares: proved for the interior data points k = 1..nd-2 (the objective of The NURBS Book Eq. 9.63) and for data with positive chord lengths (approximateCurve_least_squares); for arbitrary chord lengths only the form with N_j,p as computed by basis_function_one (approximateCurve_minimises) is proved",
     "the averaged knot vector of the interpolation is proved non-decreasing under invp*p*u_(n-2) <= 1 (holds for invp = 1/p exactly; invp is the double 1.0/p)",
     "chord lengths and their square roots are doubles computed by math.sqrt: passed to the model as inputs (exact dyadic values)",
     "approximate_surface is not modelled: checked by the oracle only (corner interpolation)",
